@@ -216,8 +216,8 @@ package policy
 //@ func (*BaseDelayablePolicy).ComputeDelay
 //@   requires d != nil
 //@   requires [C14.user_callback_gets_copy] (exec != nil && d.DelayFunc != nil) ==> userCopy(exec)
-//@   ensures [C13.computedelay] (exec != nil && d.DelayFunc != nil) ==> ncalls(d.DelayFunc) == 1 && result == ret(d.DelayFunc, 1) && arg(d.DelayFunc, 1, 0) == exec
-//@   ensures [C13.computedelay.none] !(exec != nil && d.DelayFunc != nil) ==> result == -1 && ncalls(d.DelayFunc) == 0
+//@   ensures [C13.computedelay+C03.open_delay.computed+C04.open_delay.computed] (exec != nil && d.DelayFunc != nil) ==> ncalls(d.DelayFunc) == 1 && result == ret(d.DelayFunc, 1) && arg(d.DelayFunc, 1, 0) == exec
+//@   ensures [C13.computedelay.none+C03.open_delay.not_computed+C04.open_delay.not_computed] !(exec != nil && d.DelayFunc != nil) ==> result == -1 && ncalls(d.DelayFunc) == 0
 //@   havoc
 //@   modifies calls(d.DelayFunc)
 
